@@ -58,10 +58,39 @@ def textlen(t, a, b):       # text length of the value whose bit pattern is a
     bits, s = TYPES[t]
     if s and a >= (1 << (bits - 1)): return ndig((1 << bits) - a, b) + 1
     return ndig(a, b)
-def window_lens(t, a, b):  # text lengths occurring in the window around anchor a
+def value_of(t, pat):     # signed value of a bit pattern
+    bits, s = TYPES[t]
+    return pat - (1 << bits) if s and pat >= (1 << (bits - 1)) else pat
+def candidates(t, a, b):
+    """representative values of the window a + [-2^15, 2^15): the text length only changes at powers of the base and at 0"""
     bits, s = TYPES[t]
     m = (1 << bits) - 1
-    return {textlen(t, (a - 32768) & m, b), textlen(t, a, b), textlen(t, (a + 32767) & m, b)}
+    lo, hi = -32768, 32767
+    pats = {(a + d) & m for d in (lo, -1, 0, 1, hi)}
+    specials = {0, 1, m, 1 << (bits - 1), (1 << (bits - 1)) - 1}
+    p = 1
+    while p <= m:
+        specials |= {p & m, (p - 1) & m, (-p) & m, (-p + 1) & m, (-p - 1) & m}
+        p *= b
+    for x in specials:
+        d = (x - a) & m
+        if d <= hi or d >= (1 << bits) + lo: pats.add(x)
+    return [value_of(t, x) for x in pats]
+def alive(entry, t, a, b, ln):
+    """does the window contain a value outside every open known-finding region of this entry (otherwise the query would be vacuous)"""
+    op = open_ids()
+    for v in candidates(t, a, b):
+        n = ndig(abs(v), b) + (1 if v < 0 else 0)
+        if 'C10_to_chars_neg_nondecimal' in op and v < 0 and b != 10: continue
+        if entry in ('q_to_chars', 'q_to_chars_def', 'q_from_integer'):
+            if 'C10_from_integer_write_before_length_check' in op and v != 0 and ln <= (1 if v < 0 and b == 10 else 0): continue
+        if entry in ('q_to_chars', 'q_to_chars_def'):
+            if 'C10_to_chars_exact_fit_rejected' in op and v != 0 and n == ln: continue
+        if entry == 'q_to_string':
+            if n > ln: continue
+            if 'C10_to_string_full_capacity' in op and n == ln: continue
+        return True
+    return False
 def q(entry, cfg, unwind, ub, solver='minisat', budget=120):
     return dict(entry=entry, cfg=cfg, unwind=unwind, unwindset=US, budget=budget, ub=ub, nofunc=ub, solver=solver)
 def queries(tier, prop='C10'):
@@ -75,10 +104,10 @@ def queries(tier, prop='C10'):
         for ln in range(0, mt + 3):
             cfg = {'TY': t, 'LEN': ln, 'WTL': int(ln < bits - s), 'WTLN': int(ln <= bits - s)}
             out.append(q('q_to_chars', cfg, bits + 4, ub))
-            if ln <= 5 or ln >= mt or thorough: out.append(q('q_from_integer', cfg, bits + 4, ub))
+            if ln in (0, 1, 2, 4, mt, mt + 1) or thorough: out.append(q('q_from_integer', cfg, bits + 4, ub))
             if ln in (0, 1, 3, 4):
                 out.append(q('q_to_chars_def', cfg, bits + 4, ub))
-                if not ub: out.append(q('q_oracle_fit', cfg, bits + 4, ub))
+                if not ub and (ln == 3 or thorough): out.append(q('q_oracle_fit', cfg, bits + 4, ub))
             if ln == 1:
                 out.append(q('q_roundtrip', cfg, bits + 4, ub))
                 if not ub: out.append(q('q_oracle_model', cfg, bits + 4, ub))
@@ -104,31 +133,35 @@ def queries(tier, prop='C10'):
                     out.append(q('q_roundtrip', cfg, max(nd + 3, ln + 2), ub))
                     if not ub: out.append(q('q_oracle_model', cfg, max(nd + 3, ln + 2), ub))
                     if b == 10: out.append(q('q_to_chars_def', cfg, max(nd + 3, ln + 2), ub))
-    # ---- 32/64-bit: base enumerated; value in windows around the anchors; thorough adds full-range queries
+    # ---- 32/64-bit: base enumerated; value in windows around the anchors; thorough adds more anchors, bases, types and full-range queries
     if thorough:
-        wide = [(t, b) for t in ('unsigned', 'int', 'unsigned long', 'long', 'unsigned long long', 'long long') for b in (2, 8, 10, 16, 36)]
+        wide = [(t, b) for t in ('unsigned', 'int', 'unsigned long', 'long') for b in (2, 8, 10, 16, 36)] + [(t, b) for t in ('unsigned long long', 'long long') for b in (10, 16)]
     else:
-        wide = [(t, b) for t in ('unsigned', 'int', 'unsigned long', 'long') for b in (10, 16)] + [(t, b) for t in ('unsigned', 'long') for b in (2, 36)]
+        wide = [(t, b) for t in ('unsigned', 'int', 'unsigned long', 'long') for b in (10, 16)] + [('unsigned', 2), ('unsigned', 36), ('long', 36)]
+    def add(entry, cfg, uw, t, a, b, ln, sv='minisat', bud=120):
+        if alive(entry, t, a, b, ln): out.append(q(entry, cfg, uw, ub, sv, bud))
     for t, b in wide:
         bits, s = TYPES[t]
         nd = ndig((1 << (bits - s)) - 1, b)
         mt = maxtext(t, b)
-        for a in anchors(t, b, thorough):
+        heavy = bits == 64 and b not in (2, 8, 16)                     # 64-bit division by a non power of two: the costly windows
+        anc = anchors(t, b, thorough and b == 10 and t in ('unsigned', 'int', 'unsigned long', 'long'))
+        if heavy and not thorough: anc = [x for x in anc if x in (0, (1 << (bits - s)) - 1, 1 << (bits - 1))]
+        for a in anc:
             na = textlen(t, a, b)
-            lens = [0, 1, 2] if a == 0 else [na, na + 1]
-            if window_lens(t, a, b) == {na} and 'C10_to_chars_exact_fit_rejected' in open_ids():
-                lens = [na - 1, na + 1]      # LEN == na: every value of the window lies in the open exact-fit region
-            for ln in lens:
+            for ln in ([0, 1, 2] if a == 0 else [na - 1, na, na + 1]):
                 cfg = {'TY': t, 'LEN': ln, 'BASE': b, 'ANCHOR': '%dULL' % a}
                 uw = max(nd + 3, ln + 2)
-                out.append(q('q_to_chars', cfg, uw, ub))
+                sv, bud = ('minisat', 120) if not heavy else ('kissat', 300 if thorough else 120)
+                if ln != na - 1 or not heavy: add('q_to_chars', cfg, uw, t, a, b, ln, sv, bud)
                 if ln in (2, na + 1):
-                    out.append(q('q_from_integer', cfg, uw, ub))
-                    out.append(q('q_roundtrip', cfg, uw, ub))
-                    if b == 10: out.append(q('q_to_chars_def', cfg, uw, ub))
-                    if not ub and b in (10, 36): out.append(q('q_oracle_model', dict(cfg), uw, ub))
-        if thorough and (bits == 32 or b in (2, 16)):
-            # full value range: reference text as oracle, exported VC decided by z3 (word level), SAT as fallback
+                    add('q_from_integer', cfg, uw, t, a, b, ln, sv, bud)
+                    if not heavy or a == 0 or thorough: add('q_roundtrip', cfg, uw, t, a, b, ln, sv, bud)
+                    if b == 10 and (not heavy or a == 0 or thorough): add('q_to_chars_def', cfg, uw, t, a, b, ln, sv, bud)
+                    if thorough and b in (10, 36) and a in (0, (1 << (bits - s)) - 1): out.append(q('q_oracle_model', dict(cfg), uw, ub, sv, bud))
+        if thorough and bits == 32 and (s == 0 or b != 10):
+            # full value range: reference text as oracle, exported VC decided by z3 (word level), SAT as fallback.
+            # (int base 10 and the 64-bit types gave no verdict within the budget: outside the bound)
             for ln in sorted({1, nd, mt + 1}):
                 cfg = {'TY': t, 'LEN': ln, 'BASE': b, 'REFORACLE': 1, 'NOWIT': 1}
                 out.append(q('q_to_chars', cfg, max(nd + 3, ln + 2), ub, ['z3', 'kissat'], 900))
@@ -136,11 +169,11 @@ def queries(tier, prop='C10'):
     # ---- to_string<CAP>
     for t in ['int', 'unsigned', 'long', 'unsigned long'] + (['long long', 'unsigned long long'] if thorough else []):
         bits, s = TYPES[t]
-        for a in anchors(t, 10, thorough):
+        anc = anchors(t, 10, thorough and bits == 32)
+        if not thorough: anc = [x for x in anc if x in (0, (1 << (bits - s)) - 1, 1 << (bits - 1))]
+        for a in anc:
             na = textlen(t, a, 10)
             for cap in ([1, 2, 3] if a == 0 else [na, na + 1]):
-                # skip capacities where every text of the window (that fits) lies in the open full-capacity region
-                if 'C10_to_string_full_capacity' in open_ids() and (cap == 1 or (cap == na and min(window_lens(t, a, 10)) == na)): continue
                 cfg = {'TY': t, 'CAP': cap, 'TOSTRING': 1, 'LEN': 1, 'ANCHOR': '%dULL' % a}
-                out.append(q('q_to_string', cfg, max(cap, 21) + 3, ub))
+                if alive('q_to_string', t, a, 10, cap): out.append(q('q_to_string', cfg, max(cap, 21) + 3, ub, 'minisat' if bits == 32 else 'kissat'))
     return out
